@@ -3,6 +3,7 @@ package actionlint
 import (
 	"bufio"
 	"bytes"
+	"encoding/binary"
 	"encoding/json"
 	"fmt"
 	"io"
@@ -10,6 +11,7 @@ import (
 	"strings"
 	"sync"
 	"text/template"
+	"unicode/utf16"
 	"unicode/utf8"
 
 	"github.com/fatih/color"
@@ -147,8 +149,30 @@ func scanYAMLLines(data []byte, atEOF bool) (int, []byte, error) {
 	return 0, nil, nil // Request more data to know whether LF follows
 }
 
+// decodeUTF16 converts UTF-16 source into UTF-8. YAML parser detects UTF-16 by byte order mark at the start of file and
+// decodes it. Lines and columns in the file are counted in the decoded text.
+func decodeUTF16(source []byte) []byte {
+	if len(source) < 2 {
+		return source
+	}
+	var order binary.ByteOrder
+	switch {
+	case source[0] == 0xff && source[1] == 0xfe:
+		order = binary.LittleEndian
+	case source[0] == 0xfe && source[1] == 0xff:
+		order = binary.BigEndian
+	default:
+		return source
+	}
+	u := make([]uint16, 0, len(source)/2)
+	for i := 2; i+1 < len(source); i += 2 {
+		u = append(u, order.Uint16(source[i:]))
+	}
+	return []byte(string(utf16.Decode(u)))
+}
+
 func (e *Error) getLine(source []byte) (string, bool) {
-	s := bufio.NewScanner(bytes.NewReader(source))
+	s := bufio.NewScanner(bytes.NewReader(decodeUTF16(source)))
 	s.Split(scanYAMLLines)
 	l := 0
 	for s.Scan() {
